@@ -79,6 +79,28 @@ Theorem C08_accepted_sets_floor_concurrent : forall s i ph s' h,
 Proof. exact thread_accept. Qed.
 Print Assumptions C08_accepted_sets_floor_concurrent.
 
+(* ---------- a range read overlapping compactions: the check of the record, then the scan ----------
+   A range read reads the compaction record and, later, opens its iterators. Only TiKV iterators read the snapshot of a
+   timestamp taken before the check; memkv copies the range and Badger opens its read transaction when the iterator is
+   created. The scan therefore ends with a second read of the record (the repair of finding C08-F2): a compaction records
+   its revision before it deletes anything, so a scan that can have missed a deleted version sees the raised floor. *)
+
+(* C08_below_refused for these two-step reads, at full strength: whichever step answers, a read whose revision is below
+   the floor of that moment is refused ... *)
+Theorem C08_below_refused_concurrent : forall s i rev s' res,
+  xwf s -> find_thr i (x_thr s) = Some (TReadScan rev) ->
+  xstep s (CReadScan i rev) = (s', ORead res) -> rev < floor s -> res = RErr.
+Proof. exact read_scan_refuses. Qed.
+Print Assumptions C08_below_refused_concurrent.
+
+(* ... at the check as well; and a read that passes the check was at or above the floor then *)
+Theorem C08_below_refused_concurrent_check : forall s i rev,
+  xwf s -> find_thr i (x_thr s) = Some (TReadGet rev) ->
+  (rev < floor s -> snd (xstep s (CReadCheck i rev)) = ORead RErr) /\
+  (snd (xstep s (CReadCheck i rev)) = OWrite -> floor s <= rev).
+Proof. exact read_check_spec. Qed.
+Print Assumptions C08_below_refused_concurrent_check.
+
 (* the executable oracle used on the implementation's observations accepts every model run *)
 Theorem C08_oracle_sound : forall c, c08_valid c -> c08_check c = true -> c08_oracle c = None.
 Proof. exact c08_oracle_sound. Qed.
@@ -148,3 +170,10 @@ Example C08_ex_overlap_high_parked :
 Proof. vm_compute. repeat split. Qed.
 Example C08_ex_xwf : xwf xs0.
 Proof. split; [left; reflexivity|split; [vm_compute; reflexivity|constructor]]. Qed.
+
+(* the former witness of C08-F2: the read at 112 has passed its check, Compact(116) has recorded its revision; the scan
+   step now ends refused *)
+Example C08_ex_former_F2_witness :
+  let s := xrun (mkX (mkC 116 0 None) []) [CRSpawn 5 112; CReadCheck 5 112; CSpawn 1 116 1; CThread 1 PhSetGet; CThread 1 PhSetCommit] in
+  find_thr 5 (x_thr s) = Some (TReadScan 112) /\ floor s = 116 /\ snd (xstep s (CReadScan 5 112)) = ORead RErr.
+Proof. vm_compute. repeat split. Qed.
